@@ -34,7 +34,14 @@ Inductive c04_case :=
    [stray] on it; then a GET answered by [seg2] on whichever connection it arrives *)
 | IdleCase (meth first stray seg2 : bytes) (obs1 obs2 : obs_resp)
 (* further Reads of the response body after its terminal result [first]: their results *)
-| AgainCase (meth stream : bytes) (first : berr) (again : list berr).
+| AgainCase (meth stream : bytes) (first : berr) (again : list berr)
+(* a scripted connection (no socket): [stream] delivered, the connection reporting EOF
+   ([saw_eof]: in the same Read as the last bytes, or split just before them); was the connection
+   offered to the idle pool *)
+| EofCase (meth stream : bytes) (saw_eof : bool) (obs : obs_resp) (put_idle : bool)
+(* several requests (methods, segments) answered in turn on one scripted connection: what each
+   caller saw *)
+| SeqCase (reqs : list (bytes * bytes)) (obss : list obs_resp).
 
 Definition herr_eqb (a b : herr) : bool :=
   match a, b with
@@ -155,6 +162,22 @@ Definition c04_check (c : c04_case) : bool :=
             (client_reads_again true (r_framing (cv_resp cv)) first (length again))
       | None => false
       end
+  | EofCase m s saw_eof o put_idle =>
+      match client_read m s, o with
+      | None, ORej _ => negb put_idle
+      | Some cv, OAcc _ _ _ _ _ _ _ _ _ _ _ _ =>
+          view_matches (cv_resp cv) (cv_body cv) o && Bool.eqb put_idle (conn_reusable saw_eof cv)
+      | _, _ => false
+      end
+  | SeqCase reqs obss =>
+      (* by C04_answer_depends_on_own_segment_only every answer is the one a fresh connection
+         gives from the request's own segment, whichever connection carried it *)
+      list_eqb (fun (rq : bytes * bytes) o =>
+                  match exchange (fst rq) [] (snd rq), o with
+                  | Some (r, b), OAcc _ _ _ _ _ _ _ _ _ _ _ _ => view_matches r b o
+                  | None, ORej _ => true
+                  | _, _ => false
+                  end) reqs obss
   | ConnCase m s seg2 o1 same o2 =>
       match conn_exchanges reuse_real [] [(m, s); (bs "GET", seg2)] with
       | Some (r1, b1) :: tl =>
